@@ -63,7 +63,19 @@ def classify_build_failure(text):
 
 
 def run_program(i, files, run=True, timeout=60, stdin_text=None, main="prog.incn", want_files=False):
-    """files: {relative path: text}; main file is compiled with `incan build`. Returns Result."""
+    """files: {relative path: text}; main file is compiled with `incan build`. Returns Result.
+
+    The worker directory is protected by an exclusive file lock, so two checks started at the same time share the warm
+    target directories without interfering."""
+    import fcntl
+
+    wd = worker_dir(i)
+    with open(os.path.join(wd, ".lock"), "w") as lk:
+        fcntl.flock(lk, fcntl.LOCK_EX)
+        return _run_program(i, files, run, timeout, stdin_text, main, want_files)
+
+
+def _run_program(i, files, run, timeout, stdin_text, main, want_files):
     wd = worker_dir(i)
     src = os.path.join(wd, "src")
     out = os.path.join(wd, "out")
